@@ -19,6 +19,8 @@ type VSVal struct {
 	Type int    `json:"t"`
 	Sub  string `json:"s,omitempty"`
 	Tok  int    `json:"tok"`
+	Dyn  int    `json:"d"`                 // concrete type carrying the token (== Type unless Type is an interface)
+	Raw  bool   `json:"raw,omitempty"`     // interface-typed: store the concrete reflect.Value (not one of interface type)
 }
 
 // C15Case: Mode "set" = NewValueSet round-trips; "lifted" = value sets of a
@@ -128,7 +130,13 @@ func evalC15Set(v *engine.Verdict, x *C15Case) {
 		} else {
 			p = vs.Typed(engine.Types[w.Type])
 		}
-		p.Value = engine.MakeValue(w.Type, w.Tok)
+		val := engine.MakeValue(w.Dyn, w.Tok)
+		if engine.IsIface(w.Type) && !w.Raw {
+			slot := reflect.New(engine.Types[w.Type]).Elem()
+			slot.Set(val)
+			val = slot
+		}
+		p.Value = val
 	}
 	sig := vs.Signature()
 	sv := vs.SignatureValues()
@@ -152,7 +160,7 @@ func evalC15Set(v *engine.Verdict, x *C15Case) {
 		return
 	}
 	for i, g := range fresh.Values() {
-		if ob := engine.Observe(g.Value); !ob.Valid || ob.Tok != x.Vals[i].Tok || ob.Dyn != x.Vals[i].Type {
+		if ob := engine.Observe(g.Value); !ob.Valid || ob.Tok != x.Vals[i].Tok || ob.Dyn != x.Vals[i].Dyn {
 			v.Failf("after SignatureValues -> FromSignature value %d holds #%d (valid=%v), want #%d", i, ob.Tok, ob.Valid, x.Vals[i].Tok)
 			return
 		}
@@ -164,6 +172,12 @@ func evalC15Set(v *engine.Verdict, x *C15Case) {
 	}
 	if typed > 0 {
 		v.Class("has-type-only")
+	}
+	for _, w := range x.Vals {
+		if engine.IsIface(w.Type) {
+			v.Class("interface-typed-value")
+			break
+		}
 	}
 	v.Class(fmt.Sprintf("values=%d", len(x.Vals)))
 }
@@ -397,8 +411,10 @@ func genC15(g engine.G) *engine.Case {
 		n := g.Int(1, 5)
 		for tries := 0; len(x.Vals) < n && tries < 30; tries++ {
 			val := VSVal{Type: g.Int(0, engine.NumTypes-1), Tok: len(x.Vals) + 1}
+			val.Dyn = val.Type
 			if engine.IsIface(val.Type) {
-				val.Type = g.Int(0, 5) // tokens need a concrete carrier
+				val.Dyn = engine.Pick(g, engine.Implementers(val.Type))
+				val.Raw = g.Bool()
 			}
 			if g.Pct(55) {
 				val.Name = engine.Pick(g, names)
@@ -464,6 +480,18 @@ func genC15(g engine.G) *engine.Case {
 		tgt := engine.FuncSpec{ID: engine.TargetID, InForm: engine.FormStruct, OutForm: engine.FormPos}
 		for i := 0; i < nout; i++ {
 			l := lab(perm[2+i], true)
+			if i == 0 && g.Pct(35) {
+				// interface-typed output produced by the (built) function; to
+				// keep routes unique no directly supplied type may implement it
+				it := engine.TypeI0 + g.Int(0, 1)
+				clash := false
+				for _, t := range []int{perm[0], perm[1], perm[4]} {
+					clash = clash || engine.Implements(t, it)
+				}
+				if !clash {
+					l.Type, l.Dyn = it, engine.Pick(g, engine.Implementers(it))
+				}
+			}
 			if l.Named() && names[l.Name] {
 				l.Name = ""
 			}
